@@ -13,7 +13,8 @@
    the property is stated as three theorems that are true for every order:
      nothing else is deleted + survivors unchanged  (C12_nothing_else_deleted, C12_everything_else_unchanged),
      everything declared is gone after a successful clean  (C12_outputs_gone, C12_state_absent_after_clean, C12_work_dirs_gone),
-     nothing is deleted through a symbolic link  (C12_declared_symlink_removed_as_link, C12_filtered_outputs_delete_entries_only). *)
+     nothing is deleted through a symbolic link  (C12_declared_symlink_removed_as_link, C12_filtered_outputs_delete_entries_only,
+       C12_nothing_through_symlinks). *)
 From Zinoma.Model Require Import Bytes Ext Cfg FsTree.
 From Zinoma.Proofs Require Import Bytes Ext FsTree FsTreeClean.
 
@@ -93,6 +94,18 @@ Theorem C12_filtered_outputs_delete_entries_only : forall t r es,
   forall q, removed t (fst (clean_resource t r)) q ->
   exists p e k, In p (listing t r) /\ lstat t p = Some (e, k) /\ k <> KDir /\ q = e.
 Proof. exact clean_resource_ext_entries. Qed.
+
+(* ... and physically: every removed location is the entry of a declared path itself (a file, or a symlink removed as a
+   link), or lies below the directory a declared path denotes - the declared path alone may be a symlink, which is
+   followed - through REAL directories only (`get` never crosses a symlink), no name on the way being ".zinoma" *)
+Theorem C12_nothing_through_symlinks : forall t r es,
+  wf t = true -> fr_exts r = Some es ->
+  forall q, removed t (fst (clean_resource t r)) q ->
+  exists root, In root (fr_paths r) /\
+    ((exists k, lstat t root = Some (q, k) /\ k <> KDir) \/
+     (exists qd names, stat t root = Some (qd, KDir) /\ names <> [] /\ NoZinoma names /\ q = qd ++ names /\
+                       kind_at t q <> Some KDir)).
+Proof. exact clean_resource_ext_physical. Qed.
 
 (* services and aggregates declare no outputs: cleaning them touches nothing *)
 Theorem C12_only_builds_have_outputs : forall t tg, rt_kind tg <> TBuild -> clean_outputs t tg = (t, true).
